@@ -342,6 +342,12 @@ EXTRA2["C08"] = " A third of the adaptive run cases use the torch / jax implemen
 EXTRA2["C19"] = " A rule repeats the time of the previous query exactly (records may have been added in between)."
 EXTRA2["C20"] = (" Unknown backend names are part of the matrix; misspelt outputs are also requested next to a valid one; "
                  "node_values on node paths that do not exist.")
+EXTRA2["C13"] += (" Arm same_name_operators: one model whose node types use different operator templates of the same name, "
+                  "judged against the reference interpreter.")
+EXTRA2["C12"] += " A third of the delayed cases use the fixed-step convention (t is the step counter: hist(t*dt - tau))."
+EXTRA2["C14"] = (" get_run_func(in_place=False) must hand out the declared initial state whatever was simulated "
+                 "(in_place=False) before.")
+EXTRA2["C15"] += " A quarter of the Python definitions carry numpy scalars as edge weights (they must survive to_yaml)."
 EXTRA2["C07"] = " Histories add an (ineffective, weight 0) edge with update_template(in_place=True) before later edge updates."
 EXTRA2["C16"] += (" The population arm draws dde_approx=3 for a fifth of the delayed cases. Arm adaptive_forms: population form "
                   "and explicit PyRates network of one model under scipy RK45 (rtol 1e-9) must agree to 2e-6 (delays are not "
